@@ -2,6 +2,7 @@
 # offline setup: tool check, output directories, Lean lemmas (if present) compiled once
 set -e
 cd "$(dirname "$0")"
+here=$(pwd)
 mkdir -p out evidence out/numba_cache
 python3-vt -c "import z3; assert z3.get_version_string().startswith('5.'), z3.get_version_string()"
 /usr/bin/cvc5 --version | head -1
@@ -9,7 +10,7 @@ python3-vt -c "import z3; assert z3.get_version_string().startswith('5.'), z3.ge
 if [ -f lean/Lemmas.lean ]; then
   h=$(sha256sum lean/Lemmas.lean | cut -d' ' -f1)
   if [ ! -f out/lean.stamp ] || [ "$(cat out/lean.stamp)" != "$h" ]; then
-    (cd /opt/veriftools/mathlib4 && lake env lean /verif/lean/Lemmas.lean) && echo "$h" > out/lean.stamp
+    (cd /opt/veriftools/mathlib4 && lake env lean "$here/lean/Lemmas.lean") && echo "$h" > out/lean.stamp
   fi
 fi
 /venv/bin/python -W ignore replay/validate_model.py
